@@ -304,7 +304,7 @@ func leftInQueue(q *queue.RequestQueue) []string {
 		if v == nil {
 			return ids
 		}
-		if lp, ok := v.(*pack.LogSinkPack); ok {
+		if lp, ok := v.(*pack.LogSinkPack); ok && lp != nil {
 			ids = append(ids, lp.Category)
 		}
 	}
